@@ -40,11 +40,15 @@ type cfgShadow struct {
 	preCommit uint64
 	acked     map[uint64]map[uint64]uint64 // leader -> follower -> highest index acknowledged to it in ackedTerm
 	ackedTerm map[uint64]uint64
+	// logical logs: the abstract log keeps what compaction removed
+	ghost   map[uint64][]string // node -> abstract entries of impl indices 2..log.PrevIndex()
+	prePrev uint64
+	preReal []string // abstract entries physically in the node's log before the event
 }
 
 func newCfgShadow() *cfgShadow {
 	return &cfgShadow{pay: map[string]uint64{}, last: map[uint64]string{}, started: map[[2]uint64]string{}, dist: map[string]int{},
-		acked: map[uint64]map[uint64]uint64{}, ackedTerm: map[uint64]uint64{}}
+		acked: map[uint64]map[uint64]uint64{}, ackedTerm: map[uint64]uint64{}, ghost: map[uint64][]string{}}
 }
 
 func (a *cfgShadow) entryLit(e *entry) string {
@@ -83,14 +87,15 @@ func cfgVoters(cfg Config) string {
 	return strings.Join(s, ";")
 }
 
-func (a *cfgShadow) logLits(n *simNode) []string {
+// realLits: the entries physically in the log, from impl index max(prev+1, 2)
+func (a *cfgShadow) realLits(n *simNode) []string {
 	r := n.r
 	var es []string
-	if r.log.PrevIndex() != 0 {
-		a.bad = fmt.Sprintf("node %d: the log was compacted in a run without snapshots", r.nid)
-		return nil
+	from := r.log.PrevIndex() + 1
+	if from < 2 {
+		from = 2
 	}
-	for i := uint64(2); i <= r.log.LastIndex(); i++ {
+	for i := from; i <= r.log.LastIndex(); i++ {
 		e := &entry{}
 		if err := r.storage.getEntry(i, e); err != nil {
 			a.bad = fmt.Sprintf("node %d: entry %d unreadable: %v", r.nid, i, err)
@@ -101,15 +106,46 @@ func (a *cfgShadow) logLits(n *simNode) []string {
 	return es
 }
 
-// cfgCrashEnabled: Abs/CfgRaft.v has the durable prefix, flush and crash steps (observations then carry the
-// durable prefix and the runs contain crashes)
-var cfgCrashEnabled = true
+// logLits: the logical log = what compaction removed ++ what is in the log
+func (a *cfgShadow) logLits(n *simNode) []string {
+	g := a.ghost[n.r.nid]
+	if uint64(len(g)) != sat1(n.r.log.PrevIndex()) {
+		a.bad = fmt.Sprintf("node %d: %d compacted entries remembered, log starts after %d", n.r.nid, len(g), n.r.log.PrevIndex())
+	}
+	return append(append([]string{}, g...), a.realLits(n)...)
+}
+
+// compacted: the event moved the start of n's log; remember what was removed
+func (a *cfgShadow) compacted(n *simNode, h absHint) {
+	id := n.r.nid
+	np := n.r.log.PrevIndex()
+	if np <= a.prePrev {
+		return
+	}
+	if h.kind == "install" && uint64(len(h.absK)) == sat1(np) {
+		a.ghost[id] = append([]string{}, h.absK...) // the log now starts right after the installed snapshot
+		return
+	}
+	first := a.prePrev + 1
+	if first < 2 {
+		first = 2
+	}
+	k := int(np + 1 - first)
+	if k < 0 || k > len(a.preReal) {
+		a.bad = fmt.Sprintf("node %d: log start moved from %d to %d, %d entries were held", id, a.prePrev, np, len(a.preReal))
+		return
+	}
+	a.ghost[id] = append(a.ghost[id], a.preReal[:k]...)
+}
 
 func (a *cfgShadow) obs(n *simNode) string {
 	r := n.r
 	if cfgCrashEnabled {
-		return fmt.Sprintf("(mkO %d %s [%s] %d%%nat %d%%nat)", r.term, absRole(r.state), strings.Join(a.logLits(n), ";"),
-			sat1(log.VerifFlushed(r.log)), sat1(r.commitIndex))
+		fl := sat1(log.VerifFlushed(r.log))
+		if sn := sat1(r.snaps.index); sn > fl {
+			fl = sn // what a snapshot covers is durable
+		}
+		return fmt.Sprintf("(mkO %d %s [%s] %d%%nat %d%%nat)", r.term, absRole(r.state), strings.Join(a.logLits(n), ";"), fl, sat1(r.commitIndex))
 	}
 	return fmt.Sprintf("(mkO %d %s [%s] %d%%nat)", r.term, absRole(r.state), strings.Join(a.logLits(n), ";"), sat1(r.commitIndex))
 }
@@ -130,6 +166,8 @@ func (a *cfgShadow) areq(q *appendReq, es []*entry) string {
 
 func (a *cfgShadow) before(n *simNode) {
 	a.preTerm, a.preRole, a.preCommit = n.r.term, n.r.state, n.r.commitIndex
+	a.prePrev = n.r.log.PrevIndex()
+	a.preReal = a.realLits(n)
 	a.preLog = a.logLits(n)
 }
 
@@ -168,9 +206,15 @@ func (a *cfgShadow) record(c *simCluster, n *simNode, ev string, h absHint) {
 	r := n.r
 	id := r.nid
 	var acts []string
+	if r.log.PrevIndex() != a.prePrev {
+		a.compacted(n, h)
+	}
 	post := a.logLits(n)
 	termSet := false // an action below sets the node's term to r.term
 	switch {
+	case h.kind == "install" && h.granted:
+		acts = append(acts, fmt.Sprintf("AInstall %d %d %d [%s] %d%%nat", id, h.term, h.from, strings.Join(h.absK, ";"), sat1(r.commitIndex)))
+		termSet = true
 	case h.kind == "votereq" && h.granted:
 		L, ok := a.started[[2]uint64{h.term, h.cand}]
 		if !ok {
@@ -208,7 +252,7 @@ func (a *cfgShadow) record(c *simCluster, n *simNode, ev string, h absHint) {
 		acts = append([]string{fmt.Sprintf("AStepdown %d %d", id, r.term)}, acts...)
 	}
 	// what a leader appended (the no-op of a victory is part of AWin) and how far it committed
-	wasOrIsLeader := (r.state == Leader || a.preRole == Leader && r.term == a.preTerm) && !(h.kind == "recv" && h.granted)
+	wasOrIsLeader := (r.state == Leader || a.preRole == Leader && r.term == a.preTerm) && !((h.kind == "recv" || h.kind == "install") && h.granted)
 	if h.kind == "ack" && a.preRole == Leader && r.term == a.preTerm {
 		if a.acked[id] == nil || a.ackedTerm[id] != r.term {
 			a.acked[id], a.ackedTerm[id] = map[uint64]uint64{}, r.term
